@@ -1,4 +1,5 @@
 import GrafeoModel.Model.Query
+import GrafeoModel.Model.QueryVar
 import GrafeoModel.Driver.Proto
 
 /-! Stream `q`: read queries over a graph given in the op line (C08; C10 reuses the oracle). -/
@@ -103,6 +104,23 @@ partial def handle (args : List String) : Option Proto.Out :=
     let ordered := !q.orderBy.isEmpty
     let _ := lang
     pure (mk (showRows ordered (Pipe.exec g q)) (showRows ordered (Spec.eval g q)) "pipeline-differs-from-enumeration")
+  -- one variable-length hop `lo..hi`
+  | ["vrun", nodes, edges, start, hop, lo, hi, preds, ret, distinct, ord, skip, lim, lang] => do
+    let g : Graph := ⟨← parseList parseNode nodes, ← parseList parseEdge edges⟩
+    let h ← parseHop hop
+    let lo ← lo.toNat?
+    let hi ← hi.toNat?
+    let q : Q := { start := ⟨← optNat start⟩, hops := [], preds := ← parseList parsePred preds,
+                   ret := ← parseRet ret, distinct := distinct == "1", orderBy := ← parseOrd ord,
+                   skip := ← optNat skip, limit := ← optNat lim }
+    let ordered := !q.orderBy.isEmpty
+    let m := showRows ordered (Pipe.execVar g q h lo hi)
+    -- openCypher never traverses a relationship twice within one pattern; GQL's default is WALK
+    let de := lang == "cypher"
+    let sp := showRows ordered (Spec.evalVar g q h de lo hi)
+    -- name the cause: the zero-length match, or an edge used twice
+    let noZero := showRows ordered (Spec.evalVar g q h de (if lo == 0 then 1 else lo) hi)
+    pure (mk m sp (if lo == 0 && m == noZero then "varlen-zero-length-missing" else "varlen-walks-not-trails"))
   -- `opt run`: same query, one optimizer switch set / statistics state / execution strategy:
   -- the answer must not depend on any of them
   | ["optrun", nodes, edges, start, hops, preds, ret, distinct, ord, skip, lim, lang, _mask, _stats, _fact] =>
